@@ -16,8 +16,21 @@ use crate::sources::*;
 use crate::wirecases::panic_text;
 use crate::{write_run, Args, Sink};
 
+/// what documents really start with (signatures of page description languages, with and without a byte order mark,
+/// PJL, compressed data, images, text): a document is opaque octets to the library
+pub const DOC_HEADS: [&[u8]; 14] = [
+    b"", b"%PDF-1.7\n%\xe2\xe3\xcf\xd3\n", b"%!PS-Adobe-3.0\n", b"\xef\xbb\xbf%PDF-1.4\n", b"\xef\xbb\xbf%!PS-Adobe-3.0\r\n", b"\xef\xbb\xbfplain text\r\n",
+    b"\x1b%-12345X@PJL JOB\r\n", b"\x1f\x8b\x08\x00", b"RaS2PwgRaster\x00", b"UNIRAST\x00", b"\xff\xd8\xff\xe0\x00\x10JFIF", b"\x89PNG\r\n\x1a\n",
+    b"\xff\xfeU\x00T\x00F\x001\x006\x00", b"\x01\x01\x00\x02\x00\x00\x00\x01\x01\x03",
+];
 pub fn pattern(n: usize, salt: u32) -> Vec<u8> {
-    (0..n as u32).map(|i| ((i.wrapping_mul(2654435761).wrapping_add(salt)) >> 11) as u8 ^ (i as u8)).collect()
+    let mut v: Vec<u8> = (0..n as u32).map(|i| ((i.wrapping_mul(2654435761).wrapping_add(salt)) >> 11) as u8 ^ (i as u8)).collect();
+    // (hashed: a plain modulus aliases with the strides that sample the sessions)
+    let head = DOC_HEADS[(salt.wrapping_mul(2654435761) >> 15) as usize % DOC_HEADS.len()];
+    if head.len() <= v.len() {
+        v[..head.len()].copy_from_slice(head);
+    }
+    v
 }
 
 fn sample_message(i: usize) -> IppRequestResponse {
@@ -290,13 +303,15 @@ pub fn run(a: &Args) {
     };
     for (ci, c) in cases.enumerate() {
         let kind = c["kind"].as_str().unwrap();
+        // variant choices are keyed on a hash of the case index: a plain modulus aliases with the stride that samples the cases
+        let vi = crate::mix(ci);
         let iface = c["iface"].as_str().unwrap();
         let plen_abs = c["plen"].as_u64().unwrap() as usize;
-        let which: Vec<usize> = if quick { vec![ci % 4] } else { vec![0, 1, 2, 3] };
+        let which: Vec<usize> = if quick { vec![vi % 4] } else { vec![0, 1, 2, 3] };
         for si in which {
             let scale = scales[si];
             // MiB-scale replays are sampled (they move tens of MiB each)
-            if scale >= 4096 && ci % (if quick { 97 } else { 11 }) != 0 {
+            if scale >= 4096 && vi % (if quick { 97 } else { 11 }) != 0 {
                 continue;
             }
             let sc = scripts_of(&c["hist"], scale);
